@@ -341,6 +341,13 @@ def e2e_case(ctx, case):
         ctx.count("mon.e2e.cycle_probes")
         if oc.accepted:
             return ("e2e/cycle-closing-link-accepted", dict(case=case, link=lk))
+        if holders[a] and case["kinds"][a] not in ("listarg", "unionarg"):
+            # the same cycle closed through a parameter of the object nested in the holder
+            lkn = dict(lk, nested=True)
+            on = call(add_link, build(case), case, lkn)
+            ctx.count("mon.e2e.cycle_probes_through_nested_target")
+            if on.accepted:
+                return ("e2e/cycle-closing-link-accepted/nested-target", dict(case=case, link=lkn))
         if not (oc.kind == "raise" and oc.exc_type == "ValueError"):
             return (f"e2e/cycle-closing-link-wrong-error/{oc.exc_type}", dict(case=case, link=lk, outcome=oc.brief()))
         # self link
@@ -354,6 +361,57 @@ def e2e_case(ctx, case):
         ctx.count("mon.e2e.after_refusal")
         if not o4.accepted:
             return (f"e2e/parser-unusable-after-refused-link/{o4.exc_type}", dict(case=case, link=lk, outcome=o4.brief()))
+    return None
+
+
+DEEP_LINKS = {
+    # name: (source key, target key, reads the value from the instantiated result, reads what the target received)
+    "L1": ("src.attr", "top.mid.init_args.leaf.init_args.f0", lambda r: r.src.attr, lambda r: r.top.mid.leaf.kw["f0"], "C0", "Leaf"),
+    "L2": ("top.mid.attr", "o1.f1", lambda r: r.top.mid.attr, lambda r: r.o1.kw["f1"], "Mid", "C1"),
+    "L3": ("top.attr", "o2.f2", lambda r: r.top.attr, lambda r: r.o2.kw["f2"], "Top", "C2"),
+    "L4": ("src", "top.mid.init_args.f1", lambda r: r.src, lambda r: r.top.mid.kw["f1"], "C0", "Mid"),
+    "L5": ("o1.attr", "o2.f3", lambda r: r.o1.attr, lambda r: r.o2.kw["f3"], "C1", "C2"),
+}
+
+
+def deep_case(ctx, rng):
+    """Targets nested two levels deep and sources nested one level inside another component, over class groups
+    declared in every order with the links added in every order: an acyclic set (src -> top's nested objects, top's nested
+    objects -> o1, top -> o2, o1 -> o2)."""
+    chosen = [n for n in DEEP_LINKS if rng.random() < 0.6] or ["L1", "L2"]
+    rng.shuffle(chosen)
+    groups = [("src", zoo16.C0), ("top", zoo16.Top), ("o1", zoo16.C1), ("o2", zoo16.C2)]
+    rng.shuffle(groups)
+    ctx.evaluation(("deep", tuple(chosen), tuple(g for g, _ in groups)))
+    ctx.count("mon.e2e.deep_nesting_cases")
+    w = dict(shape="deep-nesting", links=[DEEP_LINKS[n][:2] for n in chosen], declared=[g for g, _ in groups])
+    p = ArgumentParser(exit_on_error=False)
+    for g, cls in groups:
+        p.add_class_arguments(cls, g)
+    for n in chosen:
+        o = call(p.link_arguments, DEEP_LINKS[n][0], DEEP_LINKS[n][1], apply_on="instantiate")
+        if not o.accepted:
+            return ("e2e/acyclic-links-refused/deep-nesting", dict(w, link=n, outcome=o.brief()))
+    o = call(p.parse_object, {"top": {"mid": {"class_path": "vf.fixtures.zoo16.Mid", "init_args": {"leaf": {"class_path": "vf.fixtures.zoo16.Leaf"}}}}})
+    if not o.accepted:
+        return ("e2e/parse-failed/deep-nesting", dict(w, outcome=o.brief()))
+    zoo16.LOG.clear()
+    oi = call(p.instantiate_classes, o.value)
+    if not oi.accepted:
+        kinds = "+".join(sorted({("nested-source" if DEEP_LINKS[n][0].count(".") > 1 else "plain-source") for n in chosen} | {("deep-target" if DEEP_LINKS[n][1].count("init_args") > 1 else "nested-target" if "init_args" in DEEP_LINKS[n][1] else "plain-target") for n in chosen}))
+        return (f"e2e/instantiate-failed/{oi.exc_type}/deep-nesting/{kinds}", dict(w, outcome=oi.brief(), tb=oi.tb))
+    r = oi.value
+    names = [x[0] for x in zoo16.LOG]
+    for cn in ("C0", "C1", "C2", "Top", "Mid", "Leaf"):
+        if names.count(cn) != 1:
+            return (f"e2e/constructed-{'twice' if names.count(cn) > 1 else 'never'}/deep-nesting", dict(w, log=names))
+    for n in chosen:
+        _, _, src_val, got_val, scls, tcls = DEEP_LINKS[n]
+        ctx.count("mon.e2e.deep_edges_checked")
+        if names.index(scls) > names.index(tcls):
+            return (f"e2e/target-built-before-source/deep-nesting/{'nested-source' if DEEP_LINKS[n][0].count('.') > 1 else 'deep-target' if DEEP_LINKS[n][1].count('init_args') > 1 else 'other'}", dict(w, link=n, log=names))
+        if not _same_obj(got_val(r), src_val(r)):
+            return (f"e2e/target-parameter-wrong-value/deep-nesting", dict(w, link=n, got=short(got_val(r)), expected=short(src_val(r))))
     return None
 
 
@@ -401,6 +459,14 @@ def run_shard(ctx):
         return
     part_a(ctx, ctx.t0 + ctx.budget * 0.55)
     for i, rng in ctx.cases():
+        if i % 4 == 3:
+            try:
+                r = deep_case(ctx, rng)
+            finally:
+                zoo16.LOG.clear()
+            if r:
+                ctx.violation("e2e", r[0], r[1])
+            continue
         case = gen_case(rng)
         if i < 2:
             ctx.sample(dict(part="B", names=case["names"], kinds=case["kinds"], links=[link_args(case, l)[:2] for l in case["links"]], decl=case["decl"]))
